@@ -245,7 +245,7 @@ func (t *stdioClientTransport) sendRequest(ctx context.Context, req *JSONRPCRequ
 		t.pendingMutex.Lock()
 		delete(t.pendingRequests, reqID)
 		t.pendingMutex.Unlock()
-		close(respChan)
+		// respChan is not closed here: close() closes the channels still in the table, a second close would panic.
 	}()
 
 	// Send request.
@@ -259,7 +259,10 @@ func (t *stdioClientTransport) sendRequest(ctx context.Context, req *JSONRPCRequ
 
 	// Wait for response or timeout.
 	select {
-	case resp := <-respChan:
+	case resp, ok := <-respChan:
+		if !ok {
+			return nil, fmt.Errorf("transport closed")
+		}
 		return resp, nil
 	case <-ctx.Done():
 		return nil, ctx.Err()
